@@ -617,12 +617,15 @@ class AbstractExcelInPython(ABC):
             else:
                 range_and_criteria_zip[-1].append(i)
 
+        # a position counts when every pair accepts its cell, whatever the cell holds (a zero counts as well),
+        # and a cell that another pair has rejected is not handed to the remaining criteria
+        accepted = [True] * len(count_range)
         for [_range, criteria] in range_and_criteria_zip:
             for i in range(len(_range)):
-                if not criteria(_range[i]):
-                    count_range[i] = None
-        count_range = [i if count_condition(i) else None for i in count_range]
-        return len(list(filter(None, count_range)))
+                if accepted[i] and not criteria(_range[i]):
+                    accepted[i] = False
+
+        return len([i for i in range(len(count_range)) if accepted[i] and count_condition(count_range[i])])
 
     def _sumifs(self, sum_range: List[List], *range_and_criteria):
         # Ячейки в диапазоне, содержащие значение TRUE, оцениваются как 1; ячейки в диапазоне,
